@@ -74,5 +74,40 @@ theorem emit_then_pair (ps : List (A × D)) :
   | nil => rfl
   | cons p t ih => simp [List.zip_cons_cons, ih]
 
+/-! ### the default slot of an argument (fix 2b8e4d5 in `RewriteAtQuery.visit_FunctionDef`) -/
+
+/-- `pos - (len(args) - len(defaults))`, none when the argument has no default -/
+def slotOf (n m pos : Nat) : Option Nat := if pos < n - m then none else some (pos - (n - m))
+
+/-- **patching the slot of argument `pos` changes the default Python pairs with argument `pos`, and no other**:
+    after `defaults[slot] = v`, argument `i` has default `v` when `i = pos` and its old default otherwise
+    (any number of arguments, any number of stored defaults) -/
+theorem pyDefault_set (n : Nat) (ds : List (Option D)) (pos slot : Nat) (v : D) (hm : ds.length ≤ n) (hp : pos < n)
+    (hs : slotOf n ds.length pos = some slot) (i : Nat) (hi : i < n) :
+    pyDefault n (ds.set slot (some v)) i = if i = pos then some v else pyDefault n ds i := by
+  unfold slotOf at hs
+  by_cases hlt : pos < n - ds.length
+  · simp [hlt] at hs
+  · simp only [hlt, if_false, Option.some.injEq] at hs
+    subst hs
+    unfold pyDefault
+    simp only [List.length_set]
+    by_cases hil : i < n - ds.length
+    · have : i ≠ pos := by omega
+      simp [hil, this]
+    · simp only [hil, if_false]
+      by_cases hip : i = pos
+      · subst hip
+        have hb : i - (n - ds.length) < ds.length := by omega
+        simp [List.getElem?_set_self hb]
+      · have hne : pos - (n - ds.length) ≠ i - (n - ds.length) := by omega
+        simp [hip, List.getElem?_set_ne hne]
+
+/-- the old code used the position among the arguments as the slot (counted from the left): with a leading argument
+    that has no default, the default of ANOTHER argument was overwritten -/
+theorem old_slot_witness :
+    -- def setup(flag, momentum=1): addressing `flag` (position 0) wrote slot 0 = the default of `momentum`
+    pyDefault 2 ([some 1].set 0 (some 7)) 1 = some 7 ∧ slotOf 2 1 0 = none := by decide
+
 end Sig
 end Py
